@@ -210,6 +210,13 @@ def run(run, replay=None):
             fine = {"registration": [kind_, rd_, w_], "probe": probe, "real": real, "model": out[1], "looked_inside_window": not late}
             obs.append({"clients": 1, "delays": {"CHOKAN_VERIF_DELAY_UPDATER_DICT": "1500"}, "conversions": 2, "confirmations": 0,
                         "errors": [], "hung_threads": 0, "fine_model": fine})
+            # the registration itself (oracle, independent of the model): once the updater is through, the registered form is
+            # offered — also to a client that asked in between
+            expect_word = w_ if kind_ == "CommonNoun" else w_[:-2]
+            if expect_word not in after:
+                fails.append(("registration-never-visible", {"kind": "registration-never-visible", "phase": "asked-in-between"},
+                              {"registration": [kind_, rd_, w_], "probe": probe, "asked_while_updater_was_between_its_sections": mid,
+                               "asked_again_8s_later": after, "user_entries": d_mid and d_mid["user_entries"]}))
             if not late and out[1] != real:
                 run.failures.append(cl.Failure("correspondence", "the interleaving model with data (Model/Fine) and the real server disagree on the "
                                                "state between the updater's two critical sections: %s" % json.dumps(fine, ensure_ascii=False)[:400],
